@@ -268,3 +268,38 @@ func argW(w *mon.W, ws []uint64) ([]uint64, func() bool) {
 		return big[0] == poisonW && big[1] == poisonW && big[2+n] == poisonW && big[3+n] == poisonW && big[4+n] == poisonW
 	}
 }
+
+// argStrs / argI32: as argW, for []string and []int32 arguments.
+func argStrs(w *mon.W, l []string) ([]string, func() bool) {
+	n := len(l)
+	buf, _ := w.State["argStrs"].([]string)
+	if cap(buf) < n+4 {
+		buf = make([]string, 2*n+32)
+		w.State["argStrs"] = buf
+	}
+	big := buf[:n+4]
+	for i := range big {
+		big[i] = poisonS
+	}
+	copy(big[1:], l)
+	return big[1 : 1+n : n+3], func() bool {
+		return big[0] == poisonS && big[1+n] == poisonS && big[2+n] == poisonS && big[3+n] == poisonS
+	}
+}
+
+func argI32(w *mon.W, l []int32) ([]int32, func() bool) {
+	n := len(l)
+	buf, _ := w.State["argI32"].([]int32)
+	if cap(buf) < n+6 {
+		buf = make([]int32, 2*n+64)
+		w.State["argI32"] = buf
+	}
+	big := buf[:n+6]
+	for i := range big {
+		big[i] = poisonI
+	}
+	copy(big[2:], l)
+	return big[2 : 2+n : n+5], func() bool {
+		return big[0] == poisonI && big[1] == poisonI && big[2+n] == poisonI && big[3+n] == poisonI && big[4+n] == poisonI && big[5+n] == poisonI
+	}
+}
